@@ -34,6 +34,7 @@ pub fn run(rep: &mut Report, tier: Tier, sel: &[&str], eval: Eval<'_>) {
             "reopen" => u_reopen(rep, tier, eval),
             "stmt-values" => u_stmt_values(rep, tier, eval),
             "utf8" => u_utf8(rep, tier, eval),
+            "bom" => u_bom(rep, eval),
             other => panic!("unknown universe {}", other),
         }
     }
@@ -459,6 +460,55 @@ pub const BYTE_FRAMES: [&str; 40] = [
     "a = \"\"\"\"\"b\"\"\"\"\"\n",
     "a = '''''b'''''\n",
 ];
+
+/// byte-order marks: 0-3 whole marks and every proper prefix of one in front of each seed frame, after its first line,
+/// at its end and on their own; a mark is only permitted once, at the very start (two entry-point layers each
+/// stripping "the" mark would accept two)
+fn u_bom(rep: &mut Report, eval: Eval<'_>) {
+    let t0 = Instant::now();
+    const BOM: &[u8] = b"\xEF\xBB\xBF";
+    let mut heads: Vec<Vec<u8>> = Vec::new();
+    for k in 0..=3usize {
+        for partial in [0usize, 1, 2] {
+            let mut h = BOM.repeat(k);
+            h.extend_from_slice(&BOM[..partial]);
+            heads.push(h);
+        }
+    }
+    let mut cases: Vec<Vec<u8>> = Vec::new();
+    let mut bodies: Vec<Vec<u8>> = BYTE_FRAMES.iter().map(|f| f.trim_start_matches('\u{feff}').as_bytes().to_vec()).collect();
+    bodies.push(Vec::new());
+    bodies.push(b"\n".to_vec());
+    bodies.push(b"# c".to_vec());
+    bodies.push(b"[t]\nk = 'v'\n[[u]]\n".to_vec());
+    for b in &bodies {
+        for h in &heads {
+            let mut c = h.clone();
+            c.extend_from_slice(b);
+            cases.push(c);
+            // a mark that is not at the start: after the first line, at the end
+            if !h.is_empty() {
+                if let Some(p) = b.iter().position(|x| *x == b'\n') {
+                    let mut c = b[..=p].to_vec();
+                    c.extend_from_slice(h);
+                    c.extend_from_slice(&b[p + 1..]);
+                    cases.push(c);
+                }
+                let mut c = b.clone();
+                c.extend_from_slice(h);
+                cases.push(c);
+                let mut c = BOM.to_vec();
+                c.extend_from_slice(b"\n");
+                c.extend_from_slice(h);
+                c.extend_from_slice(b);
+                cases.push(c);
+            }
+        }
+    }
+    let f = |s: &[u8], acc: &mut Acc| eval(s, "U-bom", acc);
+    let (total, acc) = sweep_bytes_list(&cases, &f);
+    rep.absorb("U-bom", "44 bodies x {0-3 byte-order marks + 0-2 leading bytes of another} at the start, after the first line, at the end, after a marked first line", total, true, t0, acc);
+}
 
 fn u_byte(rep: &mut Report, tier: Tier, eval: Eval<'_>) {
     // (i) all byte strings of length <= 2 (quick) / <= 3 (thorough)
